@@ -55,6 +55,7 @@ Effect(op) ==
 
 Ret(op) ==
     CASE op.name = "insert" -> <<>>
+      [] op.name = "close_sink" -> <<>>                   \* the transport behind a peer closes: nothing the registry knows of
       [] op.name = "remove" -> Get(op.p)                 \* the removed handle, if it was present
       [] op.name = "alias"  -> IF op.p \in present THEN <<1>> ELSE <<0>>
       [] op.name = "get"    -> Get(op.p)
